@@ -1,7 +1,7 @@
 (* Property C19 -- planning and validation work is polynomial in document size.
    Statements only; proofs are in Proofs/ValidateCost.v. *)
 From Coq Require Import List NArith ZArith String Bool.
-From GQL Require Import Exec.Syntax Exec.Exec Validate.Overlap Validate.Cost Proofs.ValidateCost.
+From GQL Require Import Exec.Syntax Exec.Exec Validate.VSyntax Validate.Overlap Validate.Rules Validate.Cost Proofs.ValidateCost Proofs.ValidateCycleCost.
 Import ListNotations.
 Open Scope string_scope.
 
@@ -53,6 +53,12 @@ Theorem C19_plan_independent_of_implementers : forall S S' D share fuel (R : nam
   plan_doc S D share fuel = plan_doc S' D share fuel.
 Proof. exact plan_independent_of_implementers. Qed.
 Print Assumptions C19_plan_independent_of_implementers.
+
+(* The fragment-cycle search (NoFragmentCycles) descends into every fragment at most once
+   per document: the calls of detectCycleRecursive number at most the fragment definitions. *)
+Theorem C19_cycle_search_bound : forall W, cycle_search_calls W <= List.length (w_frags W).
+Proof. exact cycle_search_bound. Qed.
+Print Assumptions C19_cycle_search_bound.
 
 (* non-vacuity: the chain F1 { x{...F2} y{...F2} }, F2 { a } plans 3 groups with sharing
    and the memo tables are not empty on a document with two spread fragments *)
